@@ -256,3 +256,48 @@ Proof.
   unfold treats_as_sealed, sealed_scope. simpl. rewrite EF. destruct pvs; auto.
   rewrite (rebind_core_ignores_accessors q a b b' c d). reflexivity.
 Qed.
+
+(* --- the Seal step: the node at the position is replaced by its deeply (un)sealed version, nothing else changes ----------------- *)
+Lemma assoc_map_assoc_same : forall A k (f : A -> A) l v, assoc k l = Some v -> assoc k (map_assoc k f l) = Some (f v).
+Proof.
+  induction l as [|[k1 v1] r]; simpl; intros; try discriminate.
+  destruct (key_eqb k k1) eqn:E; simpl; rewrite E; auto. inv H; auto.
+Qed.
+Lemma get_in_update_in_same : forall p f t c, get_in p t = Some c -> get_in p (update_in p f t) = Some (f c).
+Proof.
+  induction p; simpl; intros. inv H; auto.
+  destruct t as [l|i k pa pt fl its]; simpl in *; [discriminate|].
+  destruct (assoc a its) as [c0|] eqn:A; [|discriminate].
+  erewrite assoc_map_assoc_same; eauto.
+Qed.
+Lemma nth_error_set_nth_same : forall A (l : list A) n x, (n < length l)%nat -> nth_error (set_nth n x l) n = Some x.
+Proof. induction l; intros; destruct n; simpl in *; auto; try lia. apply IHl; lia. Qed.
+Lemma get_at_update_at_same : forall st ps f c, get_at st ps = Some c -> get_at (update_at st ps f) ps = Some (f c).
+Proof.
+  unfold get_at, update_at; intros. destruct (get_root st (fst ps)) as [t|] eqn:E; [|discriminate].
+  unfold get_root, set_root in *. simpl.
+  destruct (nth_error (roots st) (fst ps)) as [[t'|]|] eqn:NE; try discriminate. inv E.
+  rewrite nth_error_set_nth_same. apply get_in_update_in_same; auto.
+  apply nth_error_Some. congruence.
+Qed.
+Lemma gc_noop : forall n base k st', length (roots st') = n -> gc n base k st' = st'.
+Proof.
+  intros. unfold gc. subst n. rewrite firstn_all, skipn_all. simpl. rewrite app_nil_r. destruct st'; reflexivity.
+Qed.
+Lemma length_set_nth' : forall A (l : list A) n x, length (set_nth n x l) = length l.
+Proof. induction l; intros; destruct n; simpl; auto. Qed.
+Lemma length_update_at : forall st ps f, length (roots (update_at st ps f)) = length (roots st).
+Proof. intros. unfold update_at. destruct (get_root st (fst ps)); auto. simpl. apply length_set_nth'. Qed.
+Theorem seal_step : forall q st sc ps b tgt,
+  get_at st ps = Some tgt -> is_node tgt = true ->
+  fst (step q st (mkSop sc ps (Seal b))) = update_at st ps (seal_rec b) /\
+  get_at (fst (step q st (mkSop sc ps (Seal b)))) ps = Some (seal_rec b tgt) /\
+  every (sealed_is b) (seal_rec b tgt).
+Proof.
+  intros. destruct tgt as [|tid tk pa pt fl its]; [discriminate|].
+  assert (E : fst (step q st (mkSop sc ps (Seal b))) = update_at st ps (seal_rec b)).
+  { unfold step. simpl. rewrite H. simpl. apply gc_noop. apply length_update_at. }
+  rewrite E. split; auto. split.
+  - apply get_at_update_at_same; auto.
+  - apply seal_rec_deep.
+Qed.
